@@ -332,6 +332,15 @@ Proof.
   destruct (step (pre ++ tail) tok ls st) as [ls1 st1|x]; cbn [interp]; [apply IH|reflexivity].
 Qed.
 
+(** a line that ends at this level ([LDone]) has run through every prefix of itself *)
+Theorem run_of_done pre tail ls st s : parse_loop c (pre ++ tail) ls st = ROk (LDone s) ->
+  exists ls' st', run pre tail ls st = inl (ls', st') /\ parse_loop c tail ls' st' = ROk (LDone s).
+Proof.
+  rewrite run_split. destruct (run pre tail ls st) as [[ls' st']|[[x tok] pre']].
+  - intros H. exists ls', st'. auto.
+  - destruct x; cbn [exit_res]; discriminate.
+Qed.
+
 Theorem run_la : forall pre t1 t2 ls st, la_eq t1 t2 -> run pre t1 ls st = run pre t2 ls st.
 Proof.
   induction pre as [|tok pre IH]; intros t1 t2 ls st H; [reflexivity|].
